@@ -92,7 +92,8 @@ func buildReplay(v *Verifier, prop string, o *Obligation) *ReplayInfo {
 	if len(sc) < 200000 {
 		ri.SMT2 = sc
 	}
-	if ri.Model != nil && o.exec != nil && o.exec.fn != nil {
+	replayFromIndex(v, o, ri)
+	if !ri.Confirmed && ri.Model != nil && o.exec != nil && o.exec.fn != nil {
 		func() {
 			defer func() {
 				if r := recover(); r != nil {
@@ -305,3 +306,41 @@ func cmdReplay(args []string) int {
 }
 
 var _ = ssa.NaiveForm
+
+type replayEntry struct {
+	Match string `json:"match"`
+	Pkg   string `json:"pkg"`
+	File  string `json:"file"`
+	Run   string `json:"run"`
+}
+
+// replayFromIndex: scenario replays committed under /verif/replays, keyed by obligation name.
+// The scenario test fails (and prints VIOLATION) on the real code iff the behaviour the obligation
+// forbids is observable.
+func replayFromIndex(v *Verifier, o *Obligation, ri *ReplayInfo) {
+	b, err := os.ReadFile(filepath.Join(verifDir, "replays", "index.json"))
+	if err != nil {
+		return
+	}
+	var idx []replayEntry
+	if json.Unmarshal(b, &idx) != nil {
+		return
+	}
+	for _, en := range idx {
+		if !strings.Contains(o.Name, en.Match) {
+			continue
+		}
+		src, err := os.ReadFile(filepath.Join(verifDir, "replays", en.File))
+		if err != nil {
+			continue
+		}
+		out, rerr := runOverlayTest(v.repo, filepath.Join(v.repo, en.Pkg), "zz_vp_replay_test.go", string(src), en.Run)
+		ri.ReplayTest = "replays/" + en.File + " -run " + en.Run
+		ri.ReplayOut = trunc(out, 4000)
+		if rerr != nil && strings.Contains(out, "VIOLATION") {
+			ri.Confirmed = true
+			ri.Reason = "confirmed by scenario replay " + en.File + " " + en.Run
+		}
+		return
+	}
+}
